@@ -10,7 +10,7 @@ def check(tier, seed):
         streams=[dict(name="book_model_vs_engine", kind="coqcases", shards=lambda t: 2 if t == "quick" else 8,
                       args=lambda t, s, sh, path: ["c19-cases", 3 if t == "quick" else 12, s * 1000 + 300 + sh, path], coq_timeout=3000),
                  dict(name='book_monitor', kind="monitor", shards=lambda t: 2 if t == "quick" else 8,
-                      args=lambda t, s, sh, path: ['c19-monitor', 4 if t == "quick" else 60, s * 1000 + sh])])
+                      args=lambda t, s, sh, path: ['c19-monitor', 8 if t == "quick" else 60, s * 1000 + sh])])
 
 
 def replay(path):
